@@ -289,9 +289,11 @@ def loadName (sub : SubRun) (g : G) (c : Nat) (name : String) (isRaw : Bool) : G
       | .comp a =>
         if isRaw then finish g v { ret := some v }
         else
+          -- a computed value found in an enclosing context charges that context; the delta is added to the loading one too
+          let sync (g' : G) : G := if cur != c then addOps g' c (getOps g' cur - getOps g cur) else g'
           (match computedExecute sub g cur a with
-           | (g', .ok (rv, txt)) => finish g' rv { tag := some "load.computed", text := some txt, ret := some rv }
-           | (g', .err e) => (g', .err e)
+           | (g', .ok (rv, txt)) => finish (sync g') rv { tag := some "load.computed", text := some txt, ret := some rv }
+           | (g', .err e) => (sync g', .err e)
            | (g', .panic s) => (g', .panic s)
            | (g', .unsup w) => (g', .unsup w)
            | (g', .diverge) => (g', .diverge))
